@@ -537,6 +537,36 @@ def _fresh_scale(why):
     return g
 
 
+SCALE_BOUNDS_FACTS = False
+
+
+def _scale_bounds(tok, g):
+    """frexp of a lane maximum m: m = mant * 2**e with 1/2 <= mant < 1 (or m == 0, e == 0).  With w = 2**-e the
+    partner scale: every |x_i| * w < 1 and some |x_i| * w >= 1/2 (real mode; recorded as facts of the generator)"""
+    R = S.cur()
+    if R.mode != "real":
+        return
+    w = _inv_scale(g)
+    inner = []
+    for x in tok.items:
+        v = x.inner if isinstance(x, AbsSym) else Sym.const(x)
+        if x.__class__ is AbsSym and x.sq is not None:
+            return
+        if S._has_i(v.n):
+            return
+        if not v.is_zero_nf():
+            inner.append(v)
+    if not inner or len(inner) > 16:
+        return
+    # recorded for the exact rule in sym.mk_eq0:  |x_i * w| < 1, hence  c*x_i*w == b  is false for |b| >= |c|
+    kw = None
+    for k, m in R.meta.items():
+        if m.get("kind") == "scale" and R.gens[k] == w.n:
+            kw = k
+    if kw is not None:
+        R.meta[kw]["lane"] = [v for v in inner if v.d.is_ground and v.d.LC == 1]
+
+
 def sfrexp(x, *a, **k):
     """frexp(x) = (m, e) with x == m * 2**e.  e is represented as ExpSym(v), v = 2**e > 0 a fresh scale."""
 
@@ -559,6 +589,7 @@ def sfrexp(x, *a, **k):
         exp[i] = ExpSym(g)
         if isinstance(v, MaxTok):
             man[i] = None
+            _scale_bounds(v, g)
         else:
             if isinstance(v, AbsSym):
                 v = v.resolve()
